@@ -235,6 +235,18 @@ def pure_stdlib():
     return {"collections": collections, "itertools": itertools, "functools": functools, "operator": operator}
 
 
+def pure_stdlib_from_imports():
+    """modules whose names are supplied when the REAL module imports them with ``from <module> import name`` (types, ABCs, decorators without side effects)"""
+    import collections.abc
+    import dataclasses
+    import enum
+    import typing
+
+    d = dict(pure_stdlib())
+    d.update({"collections.abc": collections.abc, "typing": typing, "dataclasses": dataclasses, "enum": enum})
+    return d
+
+
 def real_method_fallback(relpath, classname, env, **extract_kw):
     """__getattr__ for a sidecar's ``self`` proxy: an attribute the proxy does not define that is a method of the REAL class
     (typically a helper method introduced by a refactoring) is extracted with the usual rewrites, compiled into the unit's
@@ -274,3 +286,40 @@ def _select_alternative(obs):
     winner = next((k for k in keys if all(o.verdict == "discharged" for o in groups[k])), keys[0])
     drop = {id(o) for k in keys if k != winner for o in groups[k]}
     return [o for o in obs if id(o) not in drop]
+
+
+def run_native(script, timeout, env_extra=None, argv=("-c",)):
+    """Run a native probe script against the tree under test with a wall-clock limit.  Returns dict(rc, out, timed_out).  A probe that does not
+    finish within its limit is reported as such (the real code hangs, or the machine is badly overloaded): the caller turns it into a FAILED check
+    of a 'finished within the time limit' obligation when the probe is about termination, and into 'undecided' otherwise."""
+    import os
+    import subprocess
+
+    from .z3env import REPO_SRC
+
+    env = dict(os.environ, PYTHONPATH=REPO_SRC)
+    env.update(env_extra or {})
+    try:
+        p = subprocess.run(["/venv/bin/python", *argv, script], env=env, capture_output=True, text=True, timeout=timeout)
+        return {"rc": p.returncode, "out": p.stdout[-3000:] + p.stderr[-1500:], "timed_out": False}
+    except subprocess.TimeoutExpired as e:
+        out = (e.stdout.decode(errors="replace") if isinstance(e.stdout, bytes) else (e.stdout or ""))[-2500:]
+        return {"rc": None, "out": out + f"\n<probe killed after {timeout} s without finishing>", "timed_out": True}
+
+
+class _NativeResult:
+    def __init__(self, returncode, stdout, stderr):
+        self.returncode, self.stdout, self.stderr = returncode, stdout, stderr
+
+
+def run_native_p(args, env=None, timeout=300, **kw):
+    """subprocess.run for the native probes / replays that never raises on a time-out: a probe that does not finish gets returncode 124 (neither
+    0 = clean nor 1 = violation found), which every caller treats as 'the probe did not run' -> undecided"""
+    import subprocess
+
+    try:
+        p = subprocess.run(args, env=env, capture_output=True, text=True, timeout=timeout)
+        return _NativeResult(p.returncode, p.stdout, p.stderr)
+    except subprocess.TimeoutExpired as e:
+        out = e.stdout.decode(errors="replace") if isinstance(e.stdout, bytes) else (e.stdout or "")
+        return _NativeResult(124, out, f"<killed after {timeout} s without finishing>")
